@@ -1,6 +1,6 @@
 (* C09 — bulk multiply kernels equal element-wise field multiplication on every
    path and stay inside their buffers.  Model: Model/Kernels.v. *)
-From Gopar Require Import Model.Base Model.GF16 Model.Kernels Model.Ssse3 Proofs.KernelFacts Proofs.Ssse3Facts.
+From Gopar Require Import Model.Base Model.GF16 Model.Kernels Model.Ssse3 Model.ScalarAsm Proofs.KernelFacts Proofs.Ssse3Facts Proofs.ScalarAsmFacts.
 From Coq Require Import List. Import ListNotations.
 Open Scope N_scope.
 
@@ -80,3 +80,33 @@ Example C09_example :
   kernel (Dispatch true) true 0x1234 (le_bytes [0xFEDC; 7]) (le_bytes [1; 2]) =
     Ok (le_bytes [N.lxor 1 367; N.lxor 2 (fmul 0x1234 7)]).
 Proof. vm_compute. reflexivity. Qed.
+
+(* ---- instruction-level model of the SCALAR assembly kernels (Model/ScalarAsm.v: MOVWLZX / MOVBLZX / SHRW /
+   XORL / MOVW / INCQ with scaled-index operands on a machine whose every load and store is bounds-checked, the
+   loop closed by the signed compare CMPQ R8, CX; regenerated from the assembly on every run, GenLink/ScalarGenLink.v) ---- *)
+
+(* VALUE: the run of the scalar routine is element-wise field multiplication (multiply / multiply-accumulate) *)
+Theorem C09_scalar_asm_value : forall c acc inb outb,
+  c < 65536 -> wf_bytes inb -> wf_bytes outb -> length inb = length outb ->
+  Nat.even (length inb) = true -> (2 <= length inb)%nat -> lenN inb < two63 ->
+  scalar_asm c acc inb outb = Some (kspec acc c inb outb).
+Proof. exact scalar_asm_value. Qed.
+Print Assumptions C09_scalar_asm_value.
+
+(* MEMORY SAFETY: the run never faults - no load or store of the whole execution leaves its buffer - and the
+   table and the input buffer are unchanged at the end *)
+Theorem C09_scalar_asm_in_bounds : forall c acc inb outb,
+  c < 65536 -> wf_bytes inb -> wf_bytes outb -> length inb = length outb ->
+  Nat.even (length inb) = true -> (2 <= length inb)%nat -> lenN inb < two63 ->
+  exists st, scalar_asm_run c acc inb outb = SOk st /\
+             nth 0 (ss_m st) [] = table1024 c /\ nth 1 (ss_m st) [] = inb /\
+             length (ss_m st) = 3%nat /\
+             scalar_asm c acc inb outb = Some (nth 2 (ss_m st) []).
+Proof. exact scalar_asm_input_unchanged. Qed.
+Print Assumptions C09_scalar_asm_in_bounds.
+
+(* the do-while shape: on empty buffers the body runs once and its first load is out of bounds; the dispatcher
+   never calls the routine on an empty slice (C09_value's premise for the ScalarAsm path) *)
+Theorem C09_scalar_asm_empty_faults : forall c acc, scalar_asm c acc [] [] = None.
+Proof. exact scalar_asm_empty_faults. Qed.
+Print Assumptions C09_scalar_asm_empty_faults.
